@@ -121,7 +121,7 @@ def one_scenario(ctx, drv, sc, base, max_points):
     init = json.loads(run_cmd([drv, "describe", tmpl, scf]).stdout)
     digests = init.pop("digests")
     recs = [init]
-    for op in sc["setup"]:
+    for op in sc["setup"] or []:
         recs.append({"e": "op", "op": op["op"], "n": op.get("n", 0), "ref": op.get("ref", "")})
     # recording run
     rdir = os.path.join(d, "rec")
@@ -145,6 +145,7 @@ def one_scenario(ctx, drv, sc, base, max_points):
         points = sorted({points[int(i * step)] for i in range(max_points)} | {1, len(calls)})
     for k in points:
         c = calls[k - 1]
+        diverged = False
         for attempt in range(2):
             kdir = os.path.join(d, "k%d" % k)
             shutil.rmtree(kdir, ignore_errors=True)
@@ -159,10 +160,17 @@ def one_scenario(ctx, drv, sc, base, max_points):
             if marked and not done and names == want:
                 break
         else:
-            raise Infra("scenario %d: kill before call %d (%s #%d) did not follow the recording: got %s want %s" % (
-                sid, k, c["name"], c["occ"], names, want))
+            # The order in which an operation removes several nodes is not deterministic (map iteration), so a run
+            # can legitimately differ from the recording.  A run that was killed inside the operation is a crash
+            # point of SOME execution of it and is judged as such; anything else cannot be used.
+            if marked and done:
+                continue  # this execution ordered its calls differently and never reached the kill point
+            if not (marked and not done):
+                raise Infra("scenario %d: kill before call %d (%s #%d) did not hit the operation: got %s want %s" % (
+                    sid, k, c["name"], c["occ"], names, want))
+            diverged = True
         found = json.loads(run_cmd([drv, "inspect", kdir, scf]).stdout)
-        recs.append({"e": "crash", "k": k, "call": c["name"], "found": found})
+        recs.append({"e": "crash", "k": k, "call": c["name"], "found": found, "diverged": diverged})
         shutil.rmtree(kdir, ignore_errors=True)
     shutil.rmtree(d, ignore_errors=True)
     return recs
